@@ -615,6 +615,7 @@ func extractLegacy(repo, root string) error {
 	var emitted []string
 	var writers []*ast.FuncDecl
 	msgFuncs := map[string]*ast.FuncDecl{}
+	varintFuncs := map[string]*ast.FuncDecl{}
 	type emission struct {
 		typ      string
 		key      int
@@ -665,6 +666,9 @@ func extractLegacy(repo, root string) error {
 				}
 			case *ast.FuncDecl:
 				_, rt := recvOf(x)
+				if x.Body != nil && ((rt == "" && x.Name.Name == "varIntLen") || (rt == "writeBuffer" && x.Name.Name == "writeVarInt")) {
+					varintFuncs[x.Name.Name] = x
+				}
 				if x.Body != nil && ((rt == "" && (x.Name.Name == "messageSize" || x.Name.Name == "messageSetSize" || x.Name.Name == "compressMessageSet")) ||
 					(rt == "writeBuffer" && x.Name.Name == "writeMessage")) {
 					msgFuncs[x.Name.Name] = x
@@ -987,6 +991,44 @@ func extractLegacy(repo, root string) error {
 		}
 		wl = append(wl, fmt.Sprintf("%q", fd.Name.Name))
 		sb.WriteString(src + "\n")
+	}
+	{
+		// varIntLen (recordbatch sizes) must count the bytes writeVarInt writes: same zig-zag value `u`, one byte per 7 bits
+		zz := func(fd *ast.FuncDecl) string {
+			if fd == nil || fd.Body == nil || len(fd.Body.List) == 0 {
+				return "?"
+			}
+			as, ok := fd.Body.List[0].(*ast.AssignStmt)
+			if !ok || len(as.Lhs) != 1 || len(as.Rhs) != 1 || c.src(as.Lhs[0]) != "u" {
+				return "?"
+			}
+			return strings.Join(strings.Fields(c.src(as.Rhs[0])), " ")
+		}
+		loop := func(fd *ast.FuncDecl) string {
+			out := "?"
+			if fd == nil || fd.Body == nil {
+				return out
+			}
+			ast.Inspect(fd.Body, func(n ast.Node) bool {
+				if f, ok := n.(*ast.ForStmt); ok && out == "?" && f.Cond != nil {
+					cond := strings.Join(strings.Fields(c.src(f.Cond)), " ")
+					shift := ""
+					for _, st := range f.Body.List {
+						if t := strings.Join(strings.Fields(c.src(st)), " "); strings.HasPrefix(t, "u >>=") {
+							shift = t
+						}
+					}
+					out = strings.TrimSuffix(cond, " && n < len(wb.b)") + " :: " + shift
+				}
+				return true
+			})
+			return out
+		}
+		a, b := zz(varintFuncs["varIntLen"]), zz(varintFuncs["writeVarInt"])
+		la, lb := loop(varintFuncs["varIntLen"]), loop(varintFuncs["writeVarInt"])
+		fmt.Fprintf(&sb, "/-- write.go: the zig-zag value and the 7-bit loop of `varIntLen` (sizes of record batches, hence of Produce requests) and of\n`writeVarInt` (the bytes): %q / %q, loops %q / %q -/\n", a, b, la, lb)
+		fmt.Fprintf(&sb, "def varIntLenCountsWrittenBytes : Bool := %v\n", a == b && a == "uint64((i << 1) ^ (i >> 63))" && la == lb && la == "u >= 0x80 :: u >>= 7")
+		sb.WriteString("/-- the length `varIntLen` announces for a (possibly negative: timestamp deltas) varint is the number of bytes `writeVarInt` writes -/\ntheorem varint_len_counts_written_bytes : varIntLenCountsWrittenBytes = true := by decide\n\n")
 	}
 	fmt.Fprintf(&sb, "/-- write.go request writers translated (each has `legacy_size` and `legacy_header_version`) -/\ndef writers : List String := [%s]\n", strings.Join(wl, ", "))
 	var tl []string
